@@ -53,6 +53,11 @@ CliClose(c) ==
     /\ open' = open \ {c}
     /\ Emit([op |-> "close", c |-> c], 2, 0)
 
+(* the client stops reading: the gateway's writes to it block until the next quiescent point, Stop or close *)
+CliStall(c) ==
+    /\ Has("stall") /\ c \in open /\ UNCHANGED open
+    /\ Emit([op |-> "stall", c |-> c], 0, 0)
+
 CliSubscribe(c, rid) ==
     /\ c \in open /\ UNCHANGED open
     /\ Emit([op |-> "send", c |-> c, m |-> "subscribe", rid |-> rid], 3, 2)
@@ -166,6 +171,7 @@ NextC(cls) ==
             \/ \E c \in Conns, v \in Vers : CliOpen(c, v)
             \/ \E c \in Conns, r \in Rids : CliSubscribe(c, r) \/ CliGet(c, r) \/ CliUnsubscribe(c, r)
             \/ \E c \in Conns, r \in Rids, n \in {0, 2, 3} : CliUnsubscribeN(c, r, n)
+            \/ \E c \in Conns : CliStall(c)
             \/ \E c \in Conns, r \in CallRids, m \in {"call", "auth", "new"} : CliCall(c, r, m, IF m = "new" THEN "" ELSE "a")
       [] cls = "svc" ->
             \/ \E n \in Names, k \in Keys, v \in Vals : SvcChange(n, k, v)
